@@ -197,6 +197,58 @@ def override_cases(pid, overridable, all_hooks):
     return out, rout
 
 
+# ------------------------------------------------------------------------------------------------- statement x context matrix
+def nest_matrix():
+    """name -> (funs, main): every kind of control statement inside every kind of enclosing clause, all inside a for
+    loop of a function (so that break / continue / return are legal everywhere)"""
+    out = {}
+    inner_kinds = ["break", "continue", "return", "raise", "assert", "aug", "for_else", "while", "try_finally"]
+    ctx_kinds = ["direct", "for_else", "while_body", "while_else", "if_body", "try_body", "except_body", "finally_body", "try_else"]
+    for ik in inner_kinds:
+        for ck in ctx_kinds:
+            N = _N()
+            c = lambda z: ("const", N(), "int", z)
+            nm = lambda x: ("name", N(), x)
+            call = lambda f, *a: ("call", N(), nm(f), list(a))
+            kc = lambda e: ("expr", call("k", e))
+            eq = lambda x, z: ("cmp", N(), nm(x), [("CEqual", c(z))])
+            inner = {
+                "break": lambda: [("if", N(), eq("i1", 1), [("break", N())], [])],
+                "continue": lambda: [("if", N(), eq("i1", 1), [("continue", N())], [])],
+                "return": lambda: [("if", N(), eq("i1", 2), [("return", N(), call("k", c(5)))], [])],
+                "raise": lambda: [("if", N(), eq("i1", 2), [("raise", N(), call("E1", nm("i1")), None)], [])],
+                "assert": lambda: [("assert", N(), eq("i1", 1), None)],
+                "aug": lambda: [("aug", N(), ("tname", "a"), "BAdd", nm("i1"))],
+                "for_else": lambda: [("for", N(), "i2", ("list", N(), [c(1)]), [kc(nm("i2"))], [kc(c(8))])],
+                "while": lambda: [("assign", N(), [("tname", "i3")], c(0)),
+                                  ("while", N(), ("cmp", N(), nm("i3"), [("CLessThan", c(2))]),
+                                   [("assign", N(), [("tname", "i3")], ("bin", N(), "BAdd", nm("i3"), c(1)))], [kc(c(6))])],
+                "try_finally": lambda: [("try", N(), [kc(c(1))], [], [], [kc(c(2))])],
+            }[ik]()
+            ctx = {
+                "direct": lambda b: b,
+                "for_else": lambda b: [("for", N(), "i4", ("list", N(), []), [("pass",)], b)],
+                "while_body": lambda b: [("assign", N(), [("tname", "i5")], c(0)),
+                                         ("while", N(), ("cmp", N(), nm("i5"), [("CLessThan", c(1))]),
+                                          [("assign", N(), [("tname", "i5")], ("bin", N(), "BAdd", nm("i5"), c(1)))] + b, [])],
+                "while_else": lambda b: [("while", N(), c(0), [("pass",)], b)],
+                "if_body": lambda b: [("if", N(), nm("i1"), b, [kc(c(3))])],
+                "try_body": lambda b: [("try", N(), b, [(nm("E2"), None, [("pass",)])], [], [])],
+                "except_body": lambda b: [("try", N(), [("expr", call("boom", c(1)))], [(nm("E1"), None, b)], [], [])],
+                "finally_body": lambda b: [("try", N(), [kc(c(1))], [], [], b)],
+                "try_else": lambda b: [("try", N(), [("pass",)], [(nm("E2"), None, [("pass",)])], b, [])],
+            }[ck](inner)
+            fnid = N()
+            body = [("for", N(), "i1", ("list", N(), [c(1), c(2)]), ctx + [kc(nm("i1"))], [kc(c(9))]), ("return", N(), nm("a"))]
+            assigned = set()
+            genprog.collect_assigned(body, assigned)
+            funs = [{"nid": fnid, "name": "f0", "params": ["a"], "locals": sorted(assigned - {"a"}), "body": body}]
+            main = [("def", fnid, 0, "f0"),
+                    ("try", N(), [("assign", N(), [("tname", "x")], call("f0", c(0)))], [(nm("Exception"), None, [kc(c(7))])], [], [])]
+            out["%s/%s" % (ck, ik)] = (funs, main)
+    return out
+
+
 def bare_return_program():
     N = _N()
     c = lambda z: ("const", N(), "int", z)
@@ -253,8 +305,10 @@ def cases(pid, all_hooks=()):
     out, rout = [], []
     items = [(name, None, None) for name in list(WITNESSES) + list(REGRESSIONS) + ["bare_return"]]
     items += [("matrix:" + name, main, list(all_hooks)) for name, main in matrix().items()]
+    nm_ = nest_matrix()
+    items += [("nest:" + name, nm_[name][1], list(all_hooks)) for name in nm_]
     for name, main, hk in items:
-        prog, hooks = build(name, main, hk)
+        prog, hooks = build(name, main, hk, nm_[name[5:]][0] if name.startswith("nest:") else None)
         ans = [{"cls": "A0", "hooks": {x: None for x in hooks}}]
         out.append({"prog": prog, "analyses": ans, "coverage": False, "mode": "corpus:" + name})
         rout.append({"id": "%s/corpus/%s" % (pid, name), "files": {"main.py": prog["source"]}, "analyses": ans})
